@@ -358,12 +358,12 @@ def check_measures(ctx, db):
         ctx.touch(f)
         first = [x for x in f.body.c if x is not None][0]
         ok = first.k == 'IfStmt' and norm(first.child('cond').text()) == '(this->point_array.count < 3)' and norm(first.child('then').text()) == 'return 0'
-        reads = [m for m in f.walk() if m.k == 'MemberExpr' and m.n == 'items' and m.id < first.id]
+        reads = [m for m in f.walk() if m.k == 'MemberExpr' and m.n == 'items' and m.pos < first.pos]
         ctx.check(ok and not reads, 'R-SHAPE', '%s/below-three' % f.qn.replace('gdstk::', ''), f.loc(), 'fewer than three vertices give 0 before any vertex is read')
     la = next(l for l in a.walk() if l.k == 'ForStmt')
     ls = next(l for l in s.walk() if l.k == 'ForStmt')
-    pre_a = ''.join(clone.canon(x, a) for x in a.body.c[1:] if x is not None and x.id <= la.id)
-    pre_s = ''.join(clone.canon(x, s) for x in s.body.c[1:] if x is not None and x.id <= ls.id)
+    pre_a = ''.join(clone.canon(x, a) for x in a.body.c[1:] if x is not None and x.pos <= la.pos)
+    pre_s = ''.join(clone.canon(x, s) for x in s.body.c[1:] if x is not None and x.pos <= ls.pos)
     clone.check_family(ctx, 'R-CLONE', 'shoelace', [('Polygon::area', a.loc(), pre_a), ('Polygon::signed_area', s.loc(), pre_s)], 2)
     ra = [x for x in a.walk() if x.k == 'ReturnStmt'][-1]
     rs = [x for x in s.walk() if x.k == 'ReturnStmt'][-1]
@@ -480,7 +480,7 @@ def check_inside_writes_all(ctx, db):
         raise AnalysisBroken('inside: early-return guard mentions `%s`' % t[:60])
     bad = []
     for r in f.walk():
-        if r.k == 'ReturnStmt' and r.id < loop.id:
+        if r.k == 'ReturnStmt' and r.pos < loop.pos:
             g = next((a for a in r.ancestors() if a.k == 'IfStmt'), None)
             if g is None:
                 bad.append('%s: unconditional return before the entries are written' % r.loc())
